@@ -17,6 +17,9 @@ only); "parsing never panics" is a theorem for the Radix-written parsers (`parse
 import RadixModel.Model.AddrText
 import RadixModel.Lemmas.AddrText
 import RadixModel.Lemmas.NfIdText
+import RadixModel.Lemmas.NfIdParse
+import RadixModel.Lemmas.NfIdBin
+import RadixModel.Lemmas.NfGlobalId
 
 namespace Radix.AddrText
 open Radix.Bech32 (Str Bytes Variant Case checkHrp lowerStr utf8Len u8len isAsciiLower)
@@ -28,6 +31,16 @@ structure Codec.Lawful (B : Codec) : Prop where
     ∃ d5, B.decode (B.write hrp data) = some (hrp, d5, .bech32m) ∧ B.fromBase32 d5 = some data
   /-- the text is `hrp ++ "1" ++ body` with `body` over the Bech32 alphabet -/
   shape : ∀ hrp data, ∃ body, B.write hrp data = hrp ++ '1' :: body ∧ ∀ c ∈ body, c ∈ Radix.Bech32.CHARSET
+
+/-- One instance of the assumed law, evaluated by the kernel on the concrete transcription of the
+`bech32` crate that the driver uses (the universal statement is the trusted part). -/
+example : (match bech32Codec.decode
+      (bech32Codec.write ['r', 'e', 's', 'o', 'u', 'r', 'c', 'e', '_', 's', 'i', 'm'] [93, 0, 255]) with
+    | some (h, d5, v) => h == ['r', 'e', 's', 'o', 'u', 'r', 'c', 'e', '_', 's', 'i', 'm'] && v == .bech32m &&
+        bech32Codec.fromBase32 d5 == some [93, 0, 255]
+    | none => false) = true := by decide +kernel
+
+example : checkHrp ['r', 'e', 's', 'o', 'u', 'r', 'c', 'e', '_', 's', 'i', 'm'] = some .lower := by decide
 
 /-! ## Addresses -/
 
@@ -118,5 +131,104 @@ theorem classes_disjoint :
         b ∈ Radix.Generated.C28.ENTITY_TABLE.map (·.1)) ∧
     Radix.Generated.C28.HRP_IS_PREFIX_PLUS_SUFFIX = 1 ∧
     Radix.Generated.C28.TYPED_LENGTH_IS_NODE_ID_LENGTH = 1 := by decide
+
+/-! ## Non-fungible local ids -/
+
+/-- `nfid_text_roundtrip`: every value of the type (validated string, u64, 1..64 bytes, 32-byte RUID)
+parses back from its `Display` text. -/
+theorem nfid_text_roundtrip (id : LocalId) (hv : id.Valid) :
+    parseLocalId (printLocalId id) = .ok id := by
+  cases id with
+  | str cs => exact parse_print_str cs hv
+  | int n => exact parse_print_int n hv
+  | bytes b => exact parse_print_bytes b hv
+  | ruid b => exact parse_print_ruid b hv
+
+example : (LocalId.str ['A', 'b', 'c', '_', '9']).Valid := by simp [LocalId.Valid]; decide
+example : (LocalId.int 18446744073709551615).Valid := by simp [LocalId.Valid]
+example : (LocalId.ruid (List.replicate 32 7)).Valid := by simp [LocalId.Valid]
+
+/-- the text form is injective on valid ids -/
+theorem nfid_text_injective (a b : LocalId) (ha : a.Valid) (hb : b.Valid)
+    (h : printLocalId a = printLocalId b) : a = b := by
+  have h1 := nfid_text_roundtrip a ha
+  rw [h, nfid_text_roundtrip b hb] at h1
+  cases h1; rfl
+
+/-- `integer_only_canonical`: a text is accepted as an integer id `n` only if it is exactly
+`#` + the canonical decimal of `n` + `#` (no sign, no leading zeros, no other digits), and `n` fits `u64`. -/
+theorem integer_only_canonical (s : Str) (n : Nat) (h : parseLocalId s = .ok (.int n)) :
+    s = printLocalId (.int n) ∧ n < 2 ^ 64 :=
+  parseLocalId_int h
+
+/-- the canonical-integer test accepts exactly the decimal prints of naturals -/
+theorem canonical_iff_print (ds : Str) : isCanonicalInt ds = true ↔ ∃ n, ds = printNat n :=
+  ⟨fun h => ⟨parseNat ds, (printNat_parseNat_of_canonical ds h).symm⟩,
+   fun ⟨n, e⟩ => e ▸ isCanonicalInt_printNat n⟩
+
+/-- `parse_total`: `NonFungibleLocalId::from_str` never panics (every slice is on a char boundary and in
+range, every index is in range, the `[u8; 32]` conversion always fits) — for every string. -/
+theorem parse_total (s : Str) : parseLocalId s ≠ .panic := parseLocalId_ne_panic s
+
+/-- `nfid_bin_roundtrip`: the SBOR body of every valid id decodes to the id, consuming exactly the
+body (arbitrary trailing bytes are left unread); encoding never hits the size-limit `unwrap`. -/
+theorem nfid_bin_roundtrip (id : LocalId) (hv : id.Valid) :
+    ∃ bs, encodeBody id = some bs ∧ ∀ rest, decodeBody (bs ++ rest) = .ok (id, rest) :=
+  decodeBody_encodeBody id hv
+
+/-- binary form injective on valid ids -/
+theorem nfid_bin_injective (a b : LocalId) (ha : a.Valid) (hb : b.Valid)
+    (h : encodeBody a = encodeBody b) : a = b := by
+  obtain ⟨x, ex, rx⟩ := nfid_bin_roundtrip a ha
+  obtain ⟨y, ey, ry⟩ := nfid_bin_roundtrip b hb
+  rw [ex, ey] at h
+  cases h
+  have := rx []
+  rw [ry []] at this
+  cases this; rfl
+
+/-! ## Non-fungible global ids -/
+
+/-- `gid_roundtrip`: for a network whose suffix contains no ':', the canonical string of a global id
+(resource address + valid local id) parses back to the same pair; parsing never panics. -/
+theorem gid_roundtrip (B : Codec) (hB : B.Lawful) (sfx : Str) (hs : ∀ c ∈ sfx, c ≠ ':')
+    (node : Bytes) (hn : typedFromBytes Radix.Generated.C28.RESOURCE_BYTES node = some node)
+    (id : LocalId) (hv : id.Valid) (t : Str) (ht : printGlobalId B sfx node id = some t) :
+    parseGlobalId B sfx t = .ok node id := by
+  unfold printGlobalId at ht
+  cases he : encodeAddr B sfx node with
+  | error e => simp [he] at ht
+  | ok a =>
+    simp only [he, Option.some.injEq] at ht
+    subst ht
+    obtain ⟨b, rest, pre, hd, hp, hk, ha⟩ := encodeAddr_ok he
+    obtain ⟨body, hsh, hbody⟩ := hB.shape (pre ++ sfx) node
+    have hpre : ∀ c ∈ pre, c ≠ ':' := by
+      have := table_prefix_no_colon _ (entityPrefix_mem hp)
+      simpa [List.all_eq_true] using this
+    have hno : ∀ c ∈ a, c ≠ ':' := by
+      rw [ha, hsh]
+      intro c hc
+      simp only [List.mem_append, List.mem_cons] at hc
+      rcases hc with (hc | hc) | rfl | hc
+      · exact hpre c hc
+      · exact hs c hc
+      · decide
+      · exact charset_no_colon c (hbody c hc)
+    unfold parseGlobalId
+    rw [splitColon_append a _ hno, splitColon_no_colon _ (printLocalId_no_colon id hv)]
+    simp only
+    rw [typed_accepts_iff _ B hB sfx node a he, hn, nfid_text_roundtrip id hv]
+
+/-- global-id parsing never panics, whatever the codec answers -/
+theorem gid_parse_total (B : Codec) (sfx s : Str) : parseGlobalId B sfx s ≠ .panic := by
+  unfold parseGlobalId
+  split
+  · rename_i p0 p1 _
+    split
+    · simp
+    · have := parse_total p1
+      split <;> simp_all
+  · simp
 
 end Radix.AddrText
